@@ -326,6 +326,15 @@ def rankIn (mask : List Bool) (r : Nat) : Nat := ((mask.take r).filter id).lengt
 def filterRows (mask : List Bool) (rows : Rows) : Rows :=
   (rows.filter (fun r => mask.getD r false)).map (rankIn mask)
 
+/-- `new_rowids = numpy.empty(len(mask)); new_rowids[mask] = numpy.arange(count(mask))`: the kept rows numbered in order (what
+sits at the other positions is never read; here it is the same count) -/
+def maskedArange (mask : List Bool) : List Nat := (List.range mask.length).map (rankIn mask)
+
+/-- `a[m]` for a boolean array `m` of the same length -/
+def boolIndex {α : Type} : List α → List Bool → List α
+  | a :: as, b :: bs => if b then a :: boolIndex as bs else boolIndex as bs
+  | _, _ => []
+
 /-- the receiver of `filtered` just before the final `shift_common()` -/
 def filteredPre (i : IIndex) (mask : List Bool) (newLength : Nat) : IIndex :=
   let es := i.entries.foldl (fun es (e : Key × Rows) =>
